@@ -98,6 +98,16 @@ reg(
     "Trusted: pdv/refmodel/{kalman,rtsref}.py; the recorded filtering marginals are inputs (their correctness is C02).",
 )
 
+reg(
+    "C18",
+    "reference-model monitor: independent plain-Python Hairer-Norsett-Wanner II.4 vs dt0_adaptive; positivity/finiteness assertions on hostile magnitudes; follow-up adaptive solve under a logical step budget",
+    "Both helpers are called on zero, 1e-300, 1e300, mixed-magnitude and ordinary initial values x five vector fields "
+    "(incl. equilibria f(u0)=0 and constant fields) x tolerances in [1e-12,1] x rates 1..12 x flat/pytree states. Every proposal "
+    "must be finite and >0; dt0_adaptive must equal the independent HNW II.4 value (RMS-norm or 2-norm variant, 1e-9); an "
+    "adaptive solve started from the proposal must reach the final time with finite values within 3000 loop iterations.",
+    "Trusted: the 20-line HNW implementation in pdv/props/c18.py. Vector fields that are themselves non-finite at u0 are excluded.",
+)
+
 NOT_BUILT_REASON = "check under construction in this session; not yet registered"
 
 
